@@ -318,9 +318,15 @@ class Client(tyming.Tymee):
             return False  # try again later
 
         # now self.cs has new virtual port see self.cs.getsockname()
-        self.ca = self.cs.getsockname()  # resolved local connection address
-        # self.cs.getpeername() is self.ha
-        self.ha = self.cs.getpeername()  # resolved remote connection address
+        try:
+            self.ca = self.cs.getsockname()  # resolved local connection address
+            # self.cs.getpeername() is self.ha
+            self.ha = self.cs.getpeername()  # resolved remote connection address
+        except OSError as ex:  # far side reset right after connection completed
+            # give up this attempt nicely. Next .accept reopens and tries again
+            self.close()
+            self.cutoff = True
+            return False
 
         self.accepted = True  # also sets .connected == True
         self.cutoff = False
